@@ -182,6 +182,15 @@ func c11Docs() []func() map[string]any {
 			return map[string]any{"t": []any{}, "t2": []any{}, "u": []any{}, "m": []any{}}
 		},
 		func() map[string]any {
+			// rows shaped like the result of SELECT * ... GROUP BY: a `*` key holding the member rows
+			g := func(id, a float64, b string) map[string]any {
+				r := row(id, a, b, 1)
+				r["*"] = []any{map[string]any{"id": id, "a": a}, map[string]any{"id": id + 10, "a": a + 1}}
+				return r
+			}
+			return map[string]any{"t": []any{g(0, 1, "x"), g(1, 2, "y")}, "t2": []any{}, "u": []any{map[string]any{"b": "x", "c": 2.0}}, "m": []any{[]any{g(0, 2, "x")}}}
+		},
+		func() map[string]any {
 			return map[string]any{
 				"t":  []any{row(0, 2, "x", 3)},
 				"t2": []any{map[string]any{"id": 0.0, "a": "x"}},
@@ -245,6 +254,8 @@ func (p *c11) Describe(i int) any {
 func (p *c11) RunCase(i int) *core.CaseResult {
 	r := &core.CaseResult{}
 	defer withUsage(r, "C11")()
+	gq.UsageForcePrepare = true
+	defer func() { gq.UsageForcePrepare = false }()
 	c := &p.cases[i]
 	sql, clause := p.sqlOf(c)
 	opts := func() []genql.QueryOption {
@@ -318,7 +329,7 @@ func (p *c11) RunCase(i int) *core.CaseResult {
 
 func (p *c11) Meta() core.Meta {
 	return core.Meta{
-		Rule:        "one case per (query, Wrapped or not): 67 queries covering every clause kind (WHERE operator families, projections incl. star / FUSE / path selectors / pipes, ORDER BY / LIMIT, DISTINCT, GROUP BY / HAVING / aggregates, every join strategy incl. INTO and PARALLEL, UNION, CTEs incl. one that shadows a document key and WITH clauses below the outermost statement, joins without table aliases, derived tables, select-list / IN / EXISTS subqueries with <-, nested FROM and mix=>, ASYNC / SPINASYNC / ONCE / SETVAR functions, dual with and without an alias) and 35 fault templates with FAULT(x) / RAISE_WHEN / a type error in every clause position, incl. nested queries that fail while being built (derived table / CTE / union branch / join side / bad selector inside a select-list, IN or EXISTS subquery); on 5 documents (spare capacity with sentinel values in every array, empty, single row, a document whose arrays and rows are aliased); fault templates are run fault-free to count the N invocations of the fault point and then once per k in 1..N. Oracle: cycle-safe deep comparison of the caller's document (keys, values, lengths, spare capacity) with a snapshot taken before New. non-trivial = the query returned rows / a fault fired",
+		Rule:        "one case per (query, Wrapped or not): 67 queries covering every clause kind (WHERE operator families, projections incl. star / FUSE / path selectors / pipes, ORDER BY / LIMIT, DISTINCT, GROUP BY / HAVING / aggregates, every join strategy incl. INTO and PARALLEL, UNION, CTEs incl. one that shadows a document key and WITH clauses below the outermost statement, joins without table aliases, derived tables, select-list / IN / EXISTS subqueries with <-, nested FROM and mix=>, ASYNC / SPINASYNC / ONCE / SETVAR functions, dual with and without an alias) and 35 fault templates with FAULT(x) / RAISE_WHEN / a type error in every clause position, incl. nested queries that fail while being built (derived table / CTE / union branch / join side / bad selector inside a select-list, IN or EXISTS subquery); on 6 documents (spare capacity with sentinel values in every array, empty, single row, a document whose arrays and rows are aliased); fault templates are run fault-free to count the N invocations of the fault point and then once per k in 1..N. Oracle: cycle-safe deep comparison of the caller's document (keys, values, lengths, spare capacity) with a snapshot taken before New. non-trivial = the query returned rows / a fault fired",
 		Assumptions: []string{"the result may share structure with the input (rows are passed by reference); only writes by the library are violations", "ASYNC functions of the harness do not modify their arguments"},
 		Bounds:      map[string]any{"queries": len(c11Queries), "fault_templates": len(c11Faulted), "documents": len(p.docs)},
 		Exhaustive:  true,
